@@ -624,3 +624,33 @@ Definition shrink (t : table) : table := mktable (shrink_trailing (slots t)) (sm
 Definition accept_stream (t : table) (max_concurrent : nat) (sid : N) : table * bool :=
   if (max_concurrent <=? length (smap t))%nat then (t, false)
   else let '(t', _, _) := create t sid in (t', true).
+
+(* ------------------------------------------------------------------ *)
+(** * Stream-identifier bookkeeping of [handle_header_state] (server side)
+
+    [highest] = [highest_peer_stream_id], [last] = [last_stream_id] (even
+    watermark), [open_ids] = keys of [ConnectionH2::streams].  A frame whose
+    stream is not in the map is on a CLOSED stream when [sid <= highest]
+    (RST_STREAM / WINDOW_UPDATE ignored, DATA answered RST_STREAM(STREAM_CLOSED))
+    and on an IDLE stream otherwise (connection error PROTOCOL_ERROR). *)
+Record ids := mkids { highest : N; last : N; open_ids : list N; maxc : nat; draining : bool }.
+
+Inductive idclass := IdOpen | IdClosed | IdIdle.
+
+Definition classify (s : ids) (sid : N) : idclass :=
+  if existsb (N.eqb sid) (open_ids s) then IdOpen
+  else if sid <=? highest s then IdClosed else IdIdle.
+
+Inductive hdr_outcome := HAccepted | HRefused | HConnError.
+
+(** HEADERS for a stream that is not in the map *)
+Definition on_new_headers (s : ids) (sid : N) : ids * hdr_outcome :=
+  if N.odd sid && (last s <? sid) then
+    if draining s || (maxc s <=? length (open_ids s))%nat then
+      (mkids (N.max (highest s) sid) (last s) (open_ids s) (maxc s) (draining s), HRefused)
+    else
+      (mkids (N.max (highest s) sid) (sid + 1) (sid :: open_ids s) (maxc s) (draining s), HAccepted)
+  else (s, HConnError).
+
+Definition on_stream_end (s : ids) (sid : N) : ids :=
+  mkids (highest s) (last s) (filter (fun x => negb (x =? sid)) (open_ids s)) (maxc s) (draining s).
